@@ -385,6 +385,20 @@ theorem bindAckPack_eq_layout (h : Header) (t : Option SecTrailer) (alter : Bool
   repeat' split
   all_goals simp_all
 
+/-- `a<<k|b` is the integer `self.a << k | self.b` -/
+def dataRepLayout : List Item := [.int "byte_order<<4|character" 1, .int "floating_point" 1, .const [0, 0]]
+def dataRepEnv (d : DataRep) : Env where
+  ints f := if f = "byte_order<<4|character" then d.byteOrder <<< 4 ||| d.character else if f = "floating_point" then d.floatingPoint else 0
+  bytes _ := .error .keyError
+
+theorem dataRepPack_eq_layout (d : DataRep) : dataRepPack d = Layout.pack (dataRepEnv d) dataRepLayout := by
+  unfold dataRepPack dataRepLayout
+  simp only [Layout.pack, dataRepEnv, le]
+  have h : d.byteOrder <<< 4 = d.byteOrder * 16 := by rw [Nat.shiftLeft_eq]
+  simp (config := { decide := true }) only [if_true, if_false, bind, Except.bind, pure, Except.pure, List.append_assoc, List.append_nil, h]
+  repeat' split
+  all_goals simp_all
+
 end Rpc
 
 end DpapiNg
